@@ -1,3 +1,4 @@
+import Monorail.Props.C10
 import Monorail.Proofs.Analyze
 import Monorail.Generated.Consts
 /-!
@@ -160,6 +161,103 @@ theorem affectedB_iff (strict : Bool) {cfg : Config} {p : Path} {T : Target} (hT
       · cases strict with
         | false => simp
         | true => simp [(useCountsB_iff cfg p m).mpr (hs rfl)]
+
+/-! ## Target paths written with a trailing separator -/
+
+/-- **C01 (per change, exact; trailing separators).** `c01_change_exact` for configurations whose
+target paths name pairwise different normal directories with or without one trailing separator, and
+for every changed path that is not itself the directory of such a target (a change is a file). -/
+theorem c01_change_exact_dir {cfg : Config} (h : WFAD cfg) (p t : Path)
+    (hp : ∀ T ∈ cfg, T.path.getLast? = some sep → p ≠ dirOf T.path) :
+    t ∈ (analyzeChange cfg p).targets ↔ ∃ T, T.path = t ∧ AffectedD true cfg p T := by
+  rw [mem_analyzeChange_targets]
+  constructor
+  · rintro ⟨hd | hv, hni⟩
+    · obtain ⟨T, hT, rfl, hh⟩ := mem_searchTargets.mp hd
+      refine ⟨T, rfl, hT, fun hi => hni ((ign_iff_dir h hT p).mpr hi), Or.inl ?_⟩
+      exact (hit_dir (h.normalT T hT) (hp T hT)).mp hh
+    · obtain ⟨N, hN, m, hm, hh, hmi, hNi, T, hT, rfl, hh2⟩ := mem_viaUses.mp hv
+      refine ⟨T, rfl, hT, fun hi => hni ((ign_iff_dir h hT p).mpr hi), Or.inr ⟨N, hN, ?_, ?_, m, hm, ?_, ?_⟩⟩
+      · exact (hit_targets h hT hN).mp hh2
+      · exact fun hi => hNi ((ign_iff_dir h hN p).mpr hi)
+      · exact (hit_iff (h.normalU N hN m hm) p).mp hh
+      · exact fun _ => (useCounts_iff_dir h p m).mp hmi
+  · rintro ⟨T, rfl, hT, hni, hd | ⟨N, hN, hw, hNi, m, hm, hwm, huc⟩⟩
+    · refine ⟨Or.inl (mem_searchTargets.mpr ⟨T, hT, rfl, (hit_dir (h.normalT T hT) (hp T hT)).mpr hd⟩), ?_⟩
+      exact fun hi => hni ((ign_iff_dir h hT p).mp hi)
+    · refine ⟨Or.inr (mem_viaUses.mpr ⟨N, hN, m, hm, ?_, ?_, ?_, T, hT, rfl, ?_⟩), ?_⟩
+      · exact (hit_iff (h.normalU N hN m hm) p).mpr hwm
+      · exact (useCounts_iff_dir h p m).mpr (huc rfl)
+      · exact fun hi => hNi ((ign_iff_dir h hN p).mp hi)
+      · exact (hit_targets h hT hN).mpr hw
+      · exact fun hi => hni ((ign_iff_dir h hT p).mp hi)
+
+/-- **C01 (whole analysis; trailing separators).** -/
+theorem c01_analyze_exact_dir {cfg : Config} (h : WFAD cfg) (cs : List Path) {k : Nat} (hk : 0 < k) (t : Path)
+    (hp : ∀ p ∈ cs, ∀ T ∈ cfg, T.path.getLast? = some sep → p ≠ dirOf T.path) :
+    t ∈ (analyze cfg cs k).targets ↔ ∃ p ∈ cs, ∃ T, T.path = t ∧ AffectedD true cfg p T := by
+  rw [mem_analyze_targets hk]
+  constructor
+  · rintro ⟨p, hpc, ht⟩
+    exact ⟨p, hpc, (c01_change_exact_dir h p t (hp p hpc)).mp ht⟩
+  · rintro ⟨p, hpc, hT⟩
+    exact ⟨p, hpc, (c01_change_exact_dir h p t (hp p hpc)).mpr hT⟩
+
+theorem affectedDB_iff (strict : Bool) {cfg : Config} {p : Path} {T : Target} (hT : T ∈ cfg) :
+    affectedDB strict cfg p T = true ↔ AffectedD strict cfg p T := by
+  simp only [affectedDB, AffectedD, Bool.and_eq_true, Bool.not_eq_true', Bool.or_eq_true,
+    List.any_eq_true, withinB_iff, hT, true_and]
+  constructor
+  · rintro ⟨hni, hd | ⟨N, hN, ⟨hw, hNi⟩, m, hm, hwm, hs⟩⟩
+    · exact ⟨fun hi => by rw [(ignB_iff T p).mpr hi] at hni; exact Bool.noConfusion hni, Or.inl hd⟩
+    · refine ⟨fun hi => by rw [(ignB_iff T p).mpr hi] at hni; exact Bool.noConfusion hni,
+        Or.inr ⟨N, hN, hw, fun hi => by rw [(ignB_iff N p).mpr hi] at hNi; exact Bool.noConfusion hNi,
+          m, hm, hwm, ?_⟩⟩
+      intro hst
+      subst hst
+      simpa [useCountsB_iff] using hs
+  · rintro ⟨hni, hd | ⟨N, hN, hw, hNi, m, hm, hwm, hs⟩⟩
+    · refine ⟨?_, Or.inl hd⟩
+      cases hb : ignB T p with
+      | false => rfl
+      | true => exact absurd ((ignB_iff T p).mp hb) hni
+    · refine ⟨?_, Or.inr ⟨N, hN, ⟨hw, ?_⟩, m, hm, hwm, ?_⟩⟩
+      · cases hb : ignB T p with
+        | false => rfl
+        | true => exact absurd ((ignB_iff T p).mp hb) hni
+      · cases hb : ignB N p with
+        | false => rfl
+        | true => exact absurd ((ignB_iff N p).mp hb) hNi
+      · cases strict with
+        | false => simp
+        | true => simp [(useCountsB_iff cfg p m).mpr (hs rfl)]
+
+/-- the driver applies the oracle exactly on the domain of the theorem -/
+theorem wfAllDB_iff (cfg : Config) : wfAllDB cfg = true ↔ WFAD cfg := by
+  simp only [wfAllDB, Bool.and_eq_true, List.all_eq_true, normalB_iff, wfDB_iff]
+  constructor
+  · rintro ⟨hw, hrest⟩
+    exact ⟨hw.nodup, hw.normal, fun t ht u hu => (hrest t ht).1 u hu, fun t ht g hg => (hrest t ht).2 g hg⟩
+  · intro h
+    exact ⟨h.toWFD, fun t ht => ⟨h.normalU t ht, h.normalI t ht⟩⟩
+
+theorem changeOkB_spec {cfg : Config} {p : Path} (h : changeOkB cfg p = true) :
+    ∀ T ∈ cfg, T.path.getLast? = some sep → p ≠ dirOf T.path := by
+  intro T hT hs heq
+  simp only [changeOkB, Bool.and_eq_true, List.all_eq_true, Bool.not_eq_true', Bool.and_eq_false_iff] at h
+  rcases h.2 T hT with h1 | h1
+  · rw [hs] at h1; simp at h1
+  · rw [heq] at h1; simp at h1
+
+/-- `core/` declared with a trailing separator, `app` uses `core/api`, `core/sub` nested:
+the change `core/api/x` affects `core/` (its directory) and `app` (its uses entry), not `core/sub` -/
+def exCfg01Slash : Config :=
+  [ { path := [99,111,114,101,47], uses := [], ignores := [] },
+    { path := [97,112,112], uses := [[99,111,114,101,47,97,112,105]], ignores := [] },
+    { path := [99,111,114,101,47,115,117,98], uses := [], ignores := [] } ]
+
+example : wfAllDB exCfg01Slash = true ∧ changeOkB exCfg01Slash [99,111,114,101,47,97,112,105,47,120] = true := by decide
+example : (analyze exCfg01Slash [[99,111,114,101,47,97,112,105,47,120]] 50).targets = [[97,112,112],[99,111,114,101,47]] := by decide
 
 /-! ## Non-vacuity -/
 
